@@ -276,10 +276,12 @@ def drive(prop, tier, seed, jobs=None, replay=None):
              "cells": dict(merged.cells), "distinct_nontrivial": len(merged.nontrivial), "extra": merged.extra,
              "tier": tier, "reach_funcs": reach_funcs}
     if not replay:
-        # M11: the mechanism the property is anchored in must have been executed by this run's workload
-        for rel, qual in getattr(mod, "ANCHOR_FUNCS", reach.ANCHOR_FUNCS.get(prop, ())):
-            if reach.exists(reach_funcs, rel, qual) and not reach.entered(reach_funcs, rel, qual):
-                inconclusive.append("anchored function %s:%s was never executed by this run" % (rel, qual))
+        # M11: the mechanism the property is anchored in must have been executed by this run's workload.  Only a run that entered
+        # NONE of the anchored functions that still exist is inconclusive: a refactoring may stop calling one of them (or leave it
+        # behind as dead code) without the property ceasing to be decidable; the ones not entered are listed in the evidence.
+        anchors_here = [(rel, q) for rel, q in getattr(mod, "ANCHOR_FUNCS", reach.ANCHOR_FUNCS.get(prop, ())) if reach.exists(reach_funcs, rel, q)]
+        if anchors_here and not any(reach.entered(reach_funcs, rel, q) for rel, q in anchors_here):
+            inconclusive.append("none of the anchored functions was executed by this run: %s" % ", ".join("%s:%s" % a for a in anchors_here[:4]))
     if merged.outcomes.get("harness-error"):
         inconclusive.append("harness errors: %s" % json.dumps(merged.extra.get("harness_errors", [])[:2])[:1500])
     if merged.outcomes.get("hung-unknown"):
@@ -372,6 +374,7 @@ def drive(prop, tier, seed, jobs=None, replay=None):
         pass
     anchors_ = getattr(mod, "ANCHOR_FUNCS", reach.ANCHOR_FUNCS.get(prop, ()))
     ev["coverage"]["anchor_functions_entered"] = ["%s:%s" % (rel, q) for rel, q in anchors_ if reach.entered(reach_funcs, rel, q)]
+    ev["coverage"]["anchor_functions_present_but_not_entered"] = ["%s:%s" % (rel, q) for rel, q in anchors_ if reach.exists(reach_funcs, rel, q) and not reach.entered(reach_funcs, rel, q)]
     ev["coverage"]["anchor_functions_no_longer_present"] = ["%s:%s" % (rel, q) for rel, q in anchors_ if not reach.exists(reach_funcs, rel, q)]
     ev["coverage"]["anchor_files"] = {rel: reach_summary["by_file"].get(rel) for rel in sorted(anchor_files)}
     ev["coverage"]["functions_never_entered_in_anchor_files"] = [u for u in reach_unreached
